@@ -141,6 +141,14 @@ CHECKS = {
    text='Translation validation with a machine-checked validator. Proved: if guarded t = true then any two databases with equal policy views give equal results, for every interpretation of the non-scan operators and every policy meaning (C07_noninterference); a rejected tree is genuinely distinguishable (C07_guarded_complete); the WHERE-formula check against (OR allow) AND NOT (OR deny) is exact; theorems about a model of new_set / try_type_rewrite / should_ignore_rewrite registration (with refutation witnesses for the cached-in-policy and children-overlap defects). '
         'Tie: the real compiler (compile_ast_to_ir with apply_query_rewrites, compile_ir_to_sql_tree) runs on generated read-only queries (direct, link, backlink, shape, [is], aggregates, subqueries, aliases, computeds, globals; nesting <= 3) x policy placements (type/ancestor/descendant/link target, allow/deny select/all); its pgast is abstracted by following the real SQL code generator and fed to the EXTRACTED validator; the real registration path is compared with the extracted registration model; an independent region monitor runs on the real pgast. Two genuine bypasses are known findings, one was repaired (fix 4fd4967).',
    note='Trusted: Coq kernel; extraction; the pgast -> tree abstraction (row-preserving projections, Guard recognition, policy-clause marker constants, two-valued clauses); vrt substrate; policy specs computed by the generator. Out of scope: link tables, DML/triggers, SQL function bodies, compound types in the registration model, EdgeQL->SQL compilation of each clause. No axioms.'),
+ 'C12': dict(
+   category='proof', design_ref='DESIGN.md section 4, C12 (+ section 9 change log)',
+   technique='Coq soundness proof of a type-inference calculus (overload resolution, implicit-cast distance, common types, call binding) over signatures regenerated from edb/lib by a fail-closed translator; differential correspondence vs the real compiler; dynamic typing of reference-evaluator results as monitor',
+   text='PARTIAL (core calculus). 10 machine-checked theorems: for all signatures, all expressions of the calculus, all conforming databases and all primitive semantics returning their declared types, every evaluated value belongs to the inferred type when the model reports the binding clean (C12_sound, C12_stmt_type_sound); the inferred type does not depend on values; overload resolution is independent of candidate order; subsumption and union types are sound; '
+        'on the std signature table regenerated from edb/lib/**/*.edgeql on every run: well-formedness, the common type is an upper bound for implicit castability at any nesting, symmetric on scalars and independent of set-iteration order; refutation witnesses for the tuple-arity known finding and range/multirange asymmetry. '
+        'Tie: the translator output is compared with the real schema objects (scalars, ancestors, casts, operators, functions) each run; model type_of vs the real compile_ast_to_ir(...).stype for generated expressions (all argument-type combinations of every binary operator and the polymorphic functions, sets, tuples, arrays, ranges, IF/??/UNION, casts, indirection), type-algebra pairs exhaustively over scalar kinds; '
+        'monitors: toy_eval_model results dynamically typed against the inferred type, the output descriptor reporting the inferred type, an IR monitor for non-conforming arguments.',
+   note='Trusted: Coq kernel; extraction; translator (compared with the real schema every run); harness; vrt substrate. Only tested: shapes, aliases, DML, FOR, GROUP, backlinks, json/object casts (the model abstains); hypotheses that primitives and casts return their declared types (std library SQL bodies are not modelled). No axioms.'),
 }
 
 NA_DEFAULT = 'check not built yet (round 1 in progress); see DESIGN.md section 6'
